@@ -27,7 +27,9 @@ def configs(quick=True):
     out = [('LULinear', {'features': 3}), ('QRLinear', {'features': 3, 'num_householder': 2}),
            ('QRLinear', {'features': 4, 'num_householder': 3}),
            ('SVDLinear', {'features': 3, 'num_householder': 2}), ('SVDLinear', {'features': 4, 'num_householder': 4}),
-           ('NaiveLinear', {'features': 3}), ('OneByOneConvolution', {'features': 3})]
+           ('NaiveLinear', {'features': 3}), ('OneByOneConvolution', {'features': 3}),
+           # a wide layer whose determinant (0.05^48 = 3.5e-63) is far below the float32 range while log|det| = -143.8 is ordinary
+           ('NaiveLinear', {'features': 48, 'scale': 0.05})]
     if not quick:
         out += [('LULinear', {'features': 5}), ('NaiveLinear', {'features': 5}), ('OneByOneConvolution', {'features': 4}),
                 ('LULinear', {'features': 1}), ('NaiveLinear', {'features': 1})]
@@ -48,7 +50,12 @@ def build(cls, cfg, using_cache=False):
     if cls == 'SVDLinear':
         return SVDLinear(F, num_householder=cfg['num_householder'], using_cache=using_cache, identity_init=False)
     if cls == 'NaiveLinear':
-        return NaiveLinear(F, using_cache=using_cache)
+        t = NaiveLinear(F, using_cache=using_cache)
+        if cfg.get('scale'):
+            with torch.no_grad():
+                q, _ = torch.linalg.qr(torch.randn(F, F))
+                t._weight.copy_(cfg['scale'] * q)
+        return t
     if cls == 'OneByOneConvolution':
         return OneByOneConvolution(F, using_cache=using_cache, identity_init=False)
     raise ValueError(cls)
@@ -160,10 +167,12 @@ class Runner:
         t = self.t
         res = {'kind': '-'}
         try:
-            if op == 'train':
-                t.train()
-            elif op == 'eval':
-                t.eval()
+            if op in ('train', 'eval'):
+                # mode switches arrive at the layer itself or — every other time — through the module that contains it
+                # (flow.train() / flow.eval(): nn.Module propagates them as child.train(mode), never as child.eval())
+                self.nmode = getattr(self, 'nmode', 0) + 1
+                target = t if self.nmode % 2 == 0 else torch.nn.ModuleList([torch.nn.ModuleList([t])])
+                target.train() if op == 'train' else target.eval()
             elif op == 'use_cache:1':
                 t.use_cache(True)
             elif op == 'use_cache:0':
